@@ -93,6 +93,7 @@ class Engine(object):
         self.params = []
         self.pending_fault = False
         self.fault_seen = False
+        self.model_requests = []
 
     # ------------------------------------------------------------------ helpers
     def _raw(self, g):
@@ -180,7 +181,25 @@ class Engine(object):
             except Exception as e:  # noqa: BLE001
                 return Failure(e)
 
-        return MODEL_CACHE.get(key, compute)
+        val = MODEL_CACHE.get(key, compute)
+        if assembler != "dense_counterpart" and not isinstance(val, Failure) and len(self.model_requests) < 4:
+            from workloads import grids as _grids
+
+            self.model_requests.append((
+                {
+                    "kind": "weak",
+                    "grids": [_grids.raw_to_json(r) for r in self.raw],
+                    "dom": {"grid_index": rec.dom.grid_index, "spec": rec.dom.spec},
+                    "dual": {"grid_index": rec.dual.grid_index, "spec": rec.dual.spec},
+                    "same": rec.dom is rec.dual,
+                    "spec": rec.spec,
+                    "assembler": assembler,
+                    "precision": prec,
+                    "vector": dict(vector),
+                },
+                val,
+            ))
+        return val
 
     def model_strong(self, rec, vector, gvec):
         """Strong form a fresh process computes: weak form under `vector`, range map under `gvec`."""
